@@ -39,22 +39,57 @@ func runC01(c *Ctx) {
 				distinct[f] = true
 			}
 		}
-		tbl := c.caseTable(apply, nil, func(p string) bool { return p == "$1.Type" })
-		c.Check("C01.T1", "dispatch:case-set", len(tbl) == 4, apply.Pos(), fmt.Sprintf("Apply switches over %d operation-type constants (expected exactly create, update, recover, deactivate)", len(tbl)))
-		// every call passes (op, rm) unchanged and its results are returned unchanged; every other return refuses
-		for _, r := range returnsOf(apply) {
-			p0, p1 := c.Path(r.Results[0], nil), c.Path(r.Results[1], nil)
-			if strings.HasSuffix(p0, "#0") && strings.HasSuffix(p1, "#1") && p0[:len(p0)-2] == p1[:len(p1)-2] {
-				ex, _ := r.Results[0].(*ssa.Extract)
-				if ex != nil {
-					if cl, ok := ex.Tuple.(*ssa.Call); ok {
-						a := declArgs(cl)
-						c.Check("C01.T1", "dispatch:args:"+cl.Call.StaticCallee().Name(), len(a) == 2 && c.Path(a[0], nil) == "$1" && c.Path(a[1], nil) == "$2", cl.Pos(), "apply function receives (operation, previous model) unchanged")
-						continue
+		dv := c.dispatch(apply, func(p string) bool { return p == "$1.Type" })
+		c.Check("C01.T1", "dispatch:case-set", len(dv.arms) == 4, apply.Pos(), fmt.Sprintf("Apply dispatches over %d operation-type constants (expected exactly create, update, recover, deactivate)", len(dv.arms)))
+		if dv.table {
+			// table form: each entry is the apply function itself (or a literal handing (op, rm) on and its results back);
+			// Apply returns the table function's results unchanged and refuses a type outside the table
+			for _, t := range opTypes {
+				a := dv.arms[`"`+t+`"`]
+				okArgs := false
+				if a != nil {
+					for _, ac := range c.armCalls(dv, a) {
+						if ac.callee == af[t] && len(ac.args) == 2 && ac.args[0] == "$1" && ac.args[1] == "$2" {
+							okArgs = true
+						}
 					}
 				}
+				name := t
+				if af[t] != nil {
+					name = af[t].Name()
+				}
+				c.Check("C01.T1", "dispatch:args:"+name, okArgs, apply.Pos(), "apply function receives (operation, previous model) unchanged")
 			}
-			c.Check("C01.T1", "dispatch:default-refuses", !maySucceed(r) && p0 == "nil", r.Pos(), "a return of Apply outside the four cases must be (nil, error): "+p0+", "+p1)
+			foundOnly, _ := c.tableGuards(dv)
+			okRet := true
+			for _, r := range returnsOf(apply) {
+				if maySucceed(r) {
+					e0, _ := r.Results[0].(*ssa.Extract)
+					e1, _ := r.Results[1].(*ssa.Extract)
+					if e0 == nil || e1 == nil || e0.Tuple != ssa.Value(dv.site) || e1.Tuple != ssa.Value(dv.site) || e0.Index != 0 || e1.Index != 1 {
+						okRet = false
+					}
+				} else if p0 := c.Path(r.Results[0], nil); p0 != "nil" {
+					okRet = false
+				}
+			}
+			c.Check("C01.T1", "dispatch:default-refuses", foundOnly && okRet, apply.Pos(), "Apply returns the table function's results unchanged; a type outside the table yields (nil, error)")
+		} else {
+			// every call passes (op, rm) unchanged and its results are returned unchanged; every other return refuses
+			for _, r := range returnsOf(apply) {
+				p0, p1 := c.Path(r.Results[0], nil), c.Path(r.Results[1], nil)
+				if strings.HasSuffix(p0, "#0") && strings.HasSuffix(p1, "#1") && p0[:len(p0)-2] == p1[:len(p1)-2] {
+					ex, _ := r.Results[0].(*ssa.Extract)
+					if ex != nil {
+						if cl, ok := ex.Tuple.(*ssa.Call); ok && cl.Call.StaticCallee() != nil {
+							a := declArgs(cl)
+							c.Check("C01.T1", "dispatch:args:"+cl.Call.StaticCallee().Name(), len(a) == 2 && c.Path(a[0], nil) == "$1" && c.Path(a[1], nil) == "$2", cl.Pos(), "apply function receives (operation, previous model) unchanged")
+							continue
+						}
+					}
+				}
+				c.Check("C01.T1", "dispatch:default-refuses", !maySucceed(r) && p0 == "nil", r.Pos(), "a return of Apply outside the four cases must be (nil, error): "+p0+", "+p1)
+			}
 		}
 	}
 	c.Min("C01.T1", 4+1+4+1)
@@ -65,12 +100,14 @@ func runC01(c *Ctx) {
 			continue
 		}
 		c.Analysed(f)
-		allocs := allocsOf(f, rmT)
-		if len(allocs) != 1 {
-			c.Check("C01.P1", typ+":allocation", false, f.Pos(), fmt.Sprintf("expected exactly one ResolutionModel allocation in %s, found %d", short(f.String()), len(allocs)))
+		objs := c.builtObjs(f, rmT)
+		if len(objs) != 1 {
+			c.Check("C01.P1", typ+":allocation", false, f.Pos(), fmt.Sprintf("expected exactly one ResolutionModel built in %s (a literal, or a constructor helper's), found %d", short(f.String()), len(objs)))
 			continue
 		}
-		A := allocs[0]
+		O := objs[0]
+		A := O.v
+		AI := O.instr()
 
 		// ---- G1 first-operation guards
 		if typ == "create" {
@@ -186,8 +223,8 @@ func runC01(c *Ctx) {
 			want["Doc"] = []string{"<fresh>"}
 		}
 		got := map[string][]string{}
-		for _, fs := range storesInto(A) {
-			p := c.Path(fs.Val, nil)
+		for _, fs := range c.storesIntoObj(O) {
+			p := c.Path(fs.Val, fs.Env)
 			switch v := fs.Val.(type) {
 			case *ssa.MakeMap:
 				p = "<fresh>"
@@ -210,7 +247,7 @@ func runC01(c *Ctx) {
 			fld := fieldName(rmT, i)
 			g := sortedCopy(got[fld])
 			w := sortedCopy(want[fld])
-			c.Check("C01.P1", typ+":"+fld, eqStrs(g, w), A.Pos(), fmt.Sprintf("%s.%s is installed from %v (Sidetree v1 table: %v)", typ, fld, g, w))
+			c.Check("C01.P1", typ+":"+fld, eqStrs(g, w), AI.Pos(), fmt.Sprintf("%s.%s is installed from %v (Sidetree v1 table: %v)", typ, fld, g, w))
 		}
 
 		// ---- G2 conditional installs / G3 advance-from-here
@@ -249,19 +286,19 @@ func runC01(c *Ctx) {
 			guardEv("install-Doc<=ValidateDelta", chkVD, evDocPatched)
 			guardEv("install-Doc<=ApplyPatches", chkAP, evDocPatched)
 			// update commitment is installed before (= independently of) patch application
-			c.Check("C01.G2", typ+":UpdateCommitment-not-conditional-on-ApplyPatches", storeOnAllPathsAfter(A, "UpdateCommitment", apCall), f.Pos(), "the update-commitment install dominates the ApplyPatches call (patch failure still advances the commitment)")
+			c.Check("C01.G2", typ+":UpdateCommitment-not-conditional-on-ApplyPatches", c.storeOnAllPathsAfter(O, "UpdateCommitment", apCall), f.Pos(), "the update-commitment install dominates the ApplyPatches call (patch failure still advances the commitment)")
 			if typ == "recover" {
 				guardEv("install-Doc<=window", chkWin, evDocPatched)
 				ws := c.sites(f, nil, chkWin, 0)
 				okW := len(ws) == 1
 				if okW {
-					okW = storeOnAllPathsAfter(A, "UpdateCommitment", ws[0].instr)
+					okW = c.storeOnAllPathsAfter(O, "UpdateCommitment", ws[0].instr)
 				}
 				c.Check("C01.G2", typ+":UpdateCommitment-not-conditional-on-window", okW, f.Pos(), "the update-commitment install dominates the window check (out-of-window recover still advances the commitment)")
-				guardEv("model<=signature", chkSig, func(in ssa.Instruction) bool { return in == ssa.Instruction(A) })
-				guardEv("model<=signed-data-parse", chkSD, func(in ssa.Instruction) bool { return in == ssa.Instruction(A) })
+				guardEv("model<=signature", chkSig, func(in ssa.Instruction) bool { return in == AI })
+				guardEv("model<=signed-data-parse", chkSD, func(in ssa.Instruction) bool { return in == AI })
 			}
-			guardEv("model<=parse", chkParse, func(in ssa.Instruction) bool { return in == ssa.Instruction(A) })
+			guardEv("model<=parse", chkParse, func(in ssa.Instruction) bool { return in == AI })
 		case "update":
 			for _, ck := range []*GCheck{chkParse, chkSD, chkHash, chkSig, chkVD} {
 				c.CheckGuard("C01.G2", typ+":model<="+strings.SplitN(ck.Name, "(", 2)[0], f, nil, ck)
@@ -269,7 +306,7 @@ func runC01(c *Ctx) {
 			guardEv("install-Doc<=window", chkWin, evDocPatched)
 			guardEv("install-Doc<=ApplyPatches", chkAP, evDocPatched)
 			ws := c.sites(f, nil, chkWin, 0)
-			c.Check("C01.G2", typ+":window-check-after-model", len(ws) == 1 && instrDominates(A, ws[0].instr), f.Pos(), "the window check runs after the model with the advanced update commitment exists (out-of-window update still advances)")
+			c.Check("C01.G2", typ+":window-check-after-model", len(ws) == 1 && instrDominates(AI, ws[0].instr), f.Pos(), "the window check runs after the model with the advanced update commitment exists (out-of-window update still advances)")
 		case "deactivate":
 			for _, ck := range []*GCheck{chkParse, chkSD, chkSig, chkWin} {
 				c.CheckGuard("C01.G2", typ+":model<="+strings.SplitN(ck.Name, "(", 2)[0], f, nil, ck)
@@ -279,7 +316,7 @@ func runC01(c *Ctx) {
 
 		// G3: once the model exists, every reachable return hands it back with a nil error
 		if typ != "deactivate" {
-			seen := reach(A.Block(), map[edge]bool{})
+			seen := reach(AI.Block(), map[edge]bool{})
 			okAdv := true
 			var w []string
 			var bs []*ssa.BasicBlock
@@ -297,7 +334,7 @@ func runC01(c *Ctx) {
 					}
 				}
 			}
-			c.Check("C01.G3", typ+":advance-from-model-creation", okAdv && n > 0, A.Pos(), fmt.Sprintf("all %d returns reachable after the model is built return (model, nil): later failures degrade, never refuse", n), w...)
+			c.Check("C01.G3", typ+":advance-from-model-creation", okAdv && n > 0, AI.Pos(), fmt.Sprintf("all %d returns reachable after the model is built return (model, nil): later failures degrade, never refuse", n), w...)
 		}
 	}
 	c.Min("C01.G1", 4)
@@ -317,7 +354,7 @@ func numFields(n *types.Named) int {
 }
 
 // storeEvent: stores into field fld of allocation A whose value satisfies pred.
-func storeEvent(A *ssa.Alloc, fld string, pred func(v ssa.Value) bool) func(in ssa.Instruction) bool {
+func storeEvent(A ssa.Value, fld string, pred func(v ssa.Value) bool) func(in ssa.Instruction) bool {
 	return func(in ssa.Instruction) bool {
 		st, ok := in.(*ssa.Store)
 		if !ok {
@@ -332,18 +369,18 @@ func storeEvent(A *ssa.Alloc, fld string, pred func(v ssa.Value) bool) func(in s
 }
 
 // storeDominates: some non-constant store into A.fld dominates instruction at.
-func storeDominates(A *ssa.Alloc, fld string, at ssa.Instruction) bool {
+func (c *Ctx) storeDominates(O *builtObj, fld string, at ssa.Instruction) bool {
 	if at == nil {
 		return false
 	}
-	for _, fs := range storesInto(A) {
+	for _, fs := range c.storesIntoObj(O) {
 		if fs.Field != fld {
 			continue
 		}
 		if _, k := fs.Val.(*ssa.Const); k {
 			continue
 		}
-		if instrDominates(fs.Instr, at) {
+		if instrDominates(fs.At, at) {
 			return true
 		}
 	}
@@ -352,23 +389,23 @@ func storeDominates(A *ssa.Alloc, fld string, at ssa.Instruction) bool {
 
 // storeOnAllPathsAfter: every path from entry through instruction `at` to a return executes a
 // non-constant store into A.fld (before or after `at`): the install does not depend on the outcome of `at`.
-func storeOnAllPathsAfter(A *ssa.Alloc, fld string, at ssa.Instruction) bool {
+func (c *Ctx) storeOnAllPathsAfter(O *builtObj, fld string, at ssa.Instruction) bool {
 	if at == nil {
 		return false
 	}
-	if storeDominates(A, fld, at) {
+	if c.storeDominates(O, fld, at) {
 		return true
 	}
 	cut := map[edge]bool{}
 	storeBlocks := map[*ssa.BasicBlock]bool{}
-	for _, fs := range storesInto(A) {
+	for _, fs := range c.storesIntoObj(O) {
 		if fs.Field != fld {
 			continue
 		}
 		if _, k := fs.Val.(*ssa.Const); k {
 			continue
 		}
-		b := fs.Instr.Block()
+		b := fs.At.Block()
 		if b == at.Block() {
 			// same block: the store must come after `at` (before was handled by dominance)
 			return true
